@@ -22,6 +22,11 @@ type Clause struct {
 	Line  int
 }
 
+type LetSpec struct {
+	Name string
+	Expr ast.Expr
+}
+
 type LoopSpec struct {
 	Invariants []Clause
 	Decreases  []Clause
@@ -56,6 +61,8 @@ type Contract struct {
 	Pure     bool
 	NoPanic  bool
 	Trusted  string
+	Lets     []LetSpec
+	ModAny   bool     // `modifies anything`: no frame is claimed; callers havoc the heap
 	Lemma    bool     // a contract-only obligation (no code): `lemma name` blocks
 	Params   []string // for lemma blocks: "x Real" declarations
 	File     string
@@ -77,7 +84,7 @@ type ContractFile struct {
 var clauseKeywords = map[string]bool{
 	"props": true, "requires": true, "ensures": true, "shows": true, "modifies": true, "decreases": true,
 	"loop": true, "call": true, "assert": true, "inline": true, "pure": true, "nopanic": true,
-	"trusted": true, "param": true,
+	"trusted": true, "param": true, "let": true,
 }
 
 var labelRe = regexp.MustCompile(`^(requires|ensures|shows|invariant)\[([A-Za-z0-9_\-]+)\]$`)
@@ -216,6 +223,16 @@ func addClause(cf *ContractFile, c *Contract, words []string, text, path string,
 		}
 	case "param":
 		c.Params = append(c.Params, rest)
+	case "let":
+		i := strings.Index(rest, "=")
+		if i < 0 {
+			return fmt.Errorf("%s:%d: let name = expr", path, line)
+		}
+		e, err := parseSpecExpr(strings.TrimSpace(rest[i+1:]))
+		if err != nil {
+			return fmt.Errorf("%s:%d: %v", path, line, err)
+		}
+		c.Lets = append(c.Lets, LetSpec{Name: strings.TrimSpace(rest[:i]), Expr: e})
 	case "requires":
 		cl, err := mkClause(rest, path, line, label)
 		if err != nil {
@@ -238,6 +255,11 @@ func addClause(cf *ContractFile, c *Contract, words []string, text, path string,
 		c.HasMod = true
 		for _, p := range strings.Split(rest, ",") {
 			p = strings.TrimSpace(p)
+			if p == "anything" {
+				c.ModAny = true
+				c.HasMod = false
+				continue
+			}
 			if p != "" && p != "nothing" {
 				c.Modifies = append(c.Modifies, p)
 			}
